@@ -141,11 +141,12 @@ def arrays_for(case, dtype=np.float64):
     return [np.asarray(values.make(p, tuple(s), salt=7 * i + case.get("salt", 0)), dtype=dtype)
             for i, (s, p) in enumerate(zip(case["shapes"], pats))]
 
-def run_lib(case, arrays, rg=None):
-    """-> (out Tensor, [operand Tensors]).  Raises whatever the library raises."""
+def run_lib(case, arrays, rg=None, copy=True):
+    """-> (out Tensor, [operand Tensors]).  Raises whatever the library raises.
+    copy=False hands the given ndarrays (possibly views of one another) to the library as they are."""
     sg = harness.load()
     rg = rg or [False] * len(arrays)
-    ts = [sg.Tensor(np.array(a, copy=True), requires_grad=bool(r)) for a, r in zip(arrays, rg)]
+    ts = [sg.Tensor(np.array(a, copy=True) if copy else a, requires_grad=bool(r)) for a, r in zip(arrays, rg)]
     out = OPS[case["op"]].lib(sg, ts, case.get("args") or {})
     return out, ts
 
